@@ -826,7 +826,7 @@ class Image:
             Image: scaled image
 
         """
-        if not isinstance(scalar, float) or isinstance(scalar, int):
+        if not isinstance(scalar, (float, int, np.integer, np.floating)):
             raise ValueError
 
         result_image = self.copy()
